@@ -1,8 +1,10 @@
 package props
 
 import (
+	"encoding/json"
 	"fmt"
 	"reflect"
+	"sort"
 	"strings"
 	"time"
 
@@ -29,6 +31,9 @@ func c20GoTypes() []c20GoType {
 		{"[]byte", reflect.TypeOf([]byte{}), func() any { return []byte{1, 2} }, j.AttrTypeBytes, false},
 		{"[]string", reflect.TypeOf([]string{}), func() any { return []string{"a", "b"} }, 0, false},
 		{"float64", reflect.TypeOf(float64(0)), func() any { return 1.5 }, 0, false},
+		// named types whose underlying kind is a supported one
+		{"json.Number", reflect.TypeOf(json.Number("")), func() any { return json.Number("1") }, 0, false},
+		{"sort.StringSlice", reflect.TypeOf(sort.StringSlice{}), func() any { return sort.StringSlice{"a"} }, 0, false},
 		{"int", reflect.TypeOf(int(0)), func() any { return 3 }, j.AttrTypeInt, false},
 		{"uint8", reflect.TypeOf(uint8(0)), func() any { return uint8(3) }, j.AttrTypeUint8, false},
 		{"*[]byte", reflect.TypeOf((*[]byte)(nil)), func() any { b := []byte{9}; return &b }, j.AttrTypeBytes, true},
@@ -39,11 +44,13 @@ func c20GoTypes() []c20GoType {
 		{"struct{}", reflect.TypeOf(struct{}{}), func() any { return struct{}{} }, 0, false},
 		{"*time.Time", reflect.TypeOf((*time.Time)(nil)), func() any { t := TimeAlph[2]; return &t }, j.AttrTypeTime, true},
 		{"[]int", reflect.TypeOf([]int{}), func() any { return []int{1} }, 0, false},
+		{"time.Duration", reflect.TypeOf(time.Duration(0)), func() any { return time.Second }, 0, false},
+		{"json.RawMessage", reflect.TypeOf(json.RawMessage{}), func() any { return json.RawMessage("1") }, 0, false},
 	}
 }
 
 var (
-	c20APITags  = []string{"attr", "rel", "rel,u", "other", "", "rel,u,inv", "rel,", "rel,a,b,c", "attr,x", "rel,u,"}
+	c20APITags  = []string{"attr", "rel", "rel,roles", "other", "", "rel,emails,inv", "rel,", "rel,a,b,c", "attr,x", "rel,roles,"}
 	c20JSONTags = []string{"a", "b", "", "id"}
 	c20IDs      = []string{"string+tags", "absent", "no-api-tag", "json-not-id", "no-json-tag", "int+tags", "string+tags+dash"}
 )
@@ -126,7 +133,7 @@ func c20Judge(x *mc.Exec, idKind int, fields []c20Field) {
 					cs = append(cs, "duplicate-json-tag")
 				}
 			}
-			if f.api == "rel" || f.api == "rel," || f.api == "rel,u," {
+			if f.api == "rel" || f.api == "rel," || f.api == "rel,roles," {
 				cs = append(cs, "api:"+f.api)
 			}
 		}
@@ -268,7 +275,7 @@ func c20Judge(x *mc.Exec, idKind int, fields []c20Field) {
 func c20Shapes(x *mc.Exec) {
 	gts := c20GoTypes()
 	pickField := func(full bool) c20Field {
-		ng, na, nj := 5, 5, 3
+		ng, na, nj := 7, 5, 3
 		if full {
 			ng, na, nj = len(gts), len(c20APITags), len(c20JSONTags)
 		}
@@ -301,7 +308,7 @@ func c20Three(x *mc.Exec) {
 func init() {
 	Register(&Prop{
 		ID: "C20",
-		Rule: "Engine A, all choices Full: ALL struct shapes built at run time with reflect.StructOf: 7 ID-field forms (string with tags, absent, no api tag, json tag != id, no json tag, int, json:\"id,omitempty\") x 0..2 further fields, each (Go type x api tag x json tag) from 15 Go types (supported, unsupported, pointers, slices, map, struct) x 10 api tags (attr, rel, 'rel,u', 'rel,u,inv', none, 'rel,', 'rel,a,b,c', other, 'attr,x', 'rel,u,') x 4 json tags (a, b, empty, id): every single field (600), all pairs over the 5x5x3 interesting sub-alphabet in quick and over the full alphabet in thorough (360000 x 7), plus all triples over a 4x4x3 sub-alphabet in thorough; each by value and by pointer. Oracle: an independent tag reader predicts the type; if Check accepts: BuildType/Wrap/New/Copy/Type.New/Set+Get of id and of every declared field with a value of its Go type/MarshalResource succeed and built type = predicted type = what the wrapper reports; if Check rejects: BuildType errors and Wrap panics. Non-trivial = accepted shape",
+		Rule: "Engine A, all choices Full: ALL struct shapes built at run time with reflect.StructOf: 7 ID-field forms (string with tags, absent, no api tag, json tag != id, no json tag, int, json:\"id,omitempty\") x 0..2 further fields, each (Go type x api tag x json tag) from 19 Go types (supported, unsupported, pointers, slices, map, struct, named types with a supported underlying kind) x 10 api tags (attr, rel, 'rel,roles', 'rel,emails,inv', none, 'rel,', 'rel,a,b,c', other, 'attr,x', 'rel,roles,') x 4 json tags (a, b, empty, id): every single field (600), all pairs over the 7x5x3 interesting sub-alphabet in quick and over the full alphabet in thorough (360000 x 7), plus all triples over a 4x4x3 sub-alphabet in thorough; each by value and by pointer. Oracle: an independent tag reader predicts the type; if Check accepts: BuildType/Wrap/New/Copy/Type.New/Set+Get of id and of every declared field with a value of its Go type/MarshalResource succeed and built type = predicted type = what the wrapper reports; if Check rejects: BuildType errors and Wrap panics. Non-trivial = accepted shape",
 		Harnesses: []Harness{
 			{Name: "C20/shapes", Body: c20Shapes},
 			{Name: "C20/three-fields", Body: c20Three, OnlyTier: "thorough"},
